@@ -49,9 +49,9 @@ func StripHostPort(h string) string {
 		return strings.TrimSuffix(h, ".")
 	}
 
-	host, _, err := net.SplitHostPort(h)
-	if err != nil {
-		return h // on error, return unchanged
+	host, port, err := net.SplitHostPort(h)
+	if err != nil || !validOptionalPort(h[len(h)-len(port)-1:]) {
+		return h // on error or when the port is not numeric (see SplitHostPort), return unchanged
 	}
 	return strings.TrimSuffix(host, ".")
 }
